@@ -828,6 +828,7 @@ func main() {
 		x.lineChunkings(r, n)
 		x.replCallbackProtocol(r)
 		x.doubleRunLines(r)
+		x.execLines(r)
 		r.Extra["line_writer_texts_max_len"] = n
 	}
 	r.Sample(map[string]any{"alphabet": names})
